@@ -192,6 +192,7 @@ PROPS['C07']['apalache'] = ['LemmaIntersect']
 PROPS['C08']['apalache'] = ['LemmaDifference']
 PROPS['C09']['apalache'] = ['LemmaOverlap']
 PROPS['C10']['apalache'] = ['LemmaAllowsAll']
+PROPS['C04']['apalache'] = [('OrderLaws', 'OrderInt.tla')]
 
 # thorough tier only: two-alternative operands in the interval model (left operand 2 alternatives over a reduced universe),
 # deeper sessions by simulation
